@@ -1,0 +1,41 @@
+//go:build verif
+
+package kcache
+
+import (
+	"context"
+
+	logutil "github.com/boz/go-logutil"
+	"github.com/boz/kcache/filter"
+	metav1 "k8s.io/apimachinery/pkg/apis/meta/v1"
+)
+
+// VerifCache exposes the unexported cache actor to the out-of-tree
+// verification harness.  It only exists when built with `-tags verif`.
+type VerifCache interface {
+	CacheReader
+	Sync([]metav1.Object) ([]Event, error)
+	Update(Event) ([]Event, error)
+	Refilter([]metav1.Object, filter.Filter) ([]Event, error)
+	Done() <-chan struct{}
+}
+
+type verifCache struct {
+	cache
+}
+
+func NewVerifCache(ctx context.Context, log logutil.Log, stopch <-chan struct{}, f filter.Filter) VerifCache {
+	return verifCache{newCache(ctx, log, stopch, f)}
+}
+
+func (c verifCache) Sync(list []metav1.Object) ([]Event, error) {
+	return c.cache.sync(list)
+}
+
+func (c verifCache) Update(evt Event) ([]Event, error) {
+	return c.cache.update(evt)
+}
+
+func (c verifCache) Refilter(list []metav1.Object, f filter.Filter) ([]Event, error) {
+	return c.cache.refilter(list, f)
+}
